@@ -4,7 +4,8 @@ import json, os, shutil, sys, glob
 VERIF = os.path.dirname(os.path.dirname(os.path.abspath(__file__)))
 pid = sys.argv[1]
 src = (sys.argv[2] if len(sys.argv) > 2 else "/tmp/seed_out") + f"/{pid}"
-offset = int(sys.argv[3]) if len(sys.argv) > 3 else 0
+existing = [int(os.path.basename(x).split("-")[1]) for x in glob.glob(os.path.join(VERIF, "seeded", f"{pid}-*"))]
+offset = int(sys.argv[3]) if len(sys.argv) > 3 else (max(existing) if existing and len(sys.argv) > 2 else 0)
 for patch in sorted(glob.glob(f"{src}/patch*.diff")):
     k = os.path.basename(patch)[5:-5]
     demo, notes = f"{src}/demo{k}.py", f"{src}/notes{k}.md"
